@@ -145,6 +145,7 @@ Inductive op :=
 | OGetName (v : Z)
 | OGetClass (v : Z)
 | OSizeof (v : Z) (names : list (list Z))
+| OFexist (v : Z) (names : list (list Z))
 | OField (v idx : Z)
 | ONFields (v : Z)
 | OBlockSize (v n : Z)
@@ -254,6 +255,12 @@ Definition attach_to (s : state) (h key : Z) (d : vd) (wr : bool) : state * res 
   | [], _ :: _ => (set key (store d h (mkatt wr (Some 0) None false) true false) s, ROk [] [] [])
   end.
 
+Fixpoint redefine (f : field) (defs : list field) : list field :=
+  match defs with
+  | [] => [f]
+  | g :: t => if name_eqb (f_name f) (f_name g) then f :: t else g :: redefine f t
+  end.
+
 Definition names_to_idx (sch : schema) (names : list (list Z)) : option (list nat) :=
   all_some (map (fun nm => find_field (cut_name nm) sch) names).
 
@@ -271,8 +278,8 @@ Definition step (s : state) (o : op) : state * res :=
         let f := mkfield (cut_name name) t order in
         if existsb (Z.eqb 44) name || match name with [] => true | _ => false end then (s, RFail) else
         if negb (field_ok f) then (s, RFail) else
-        if existsb (fun g => name_eqb (f_name f) (f_name g)) (v_defs d) then (s, RUnspec) else
-        (set key (with_data d (v_defs d ++ [f]) (v_schema d) (v_full d) (v_tab d) false) s, ROk [] [] []))
+        (* a name that is defined again gets the new definition *)
+        (set key (with_data d (redefine f (v_defs d)) (v_schema d) (v_full d) (v_tab d) false) s, ROk [] [] []))
   | OSetIl v il =>
       with_att s v (fun key d a =>
         if negb (a_write a) then (s, RFail) else
@@ -400,6 +407,15 @@ Definition step (s : state) (o : op) : state * res :=
                        (v_name d) (firstn (Z.to_nat VSNAMELENMAX) nm)) s, ROk [] [] []))
   | OGetName v => with_att s v (fun key d a => (s, ROk [] [v_name d] []))
   | OGetClass v => with_att s v (fun key d a => (s, ROk [] [v_class d] []))
+  | OFexist v names =>
+      with_att s v (fun key d a =>
+        match v_schema d, names with
+        | _, [] => (s, RFail)
+        | None, _ => (s, RFail)
+        | Some sch, _ =>
+            if (VSFIELDMAX <? zlen names)%Z then (s, RFail) else
+            match names_to_idx sch names with None => (s, RFail) | Some _ => (s, ROk [] [] []) end
+        end)
   | OSizeof v names =>
       with_att s v (fun key d a =>
         match v_schema d, names with
